@@ -3,7 +3,8 @@
 (* Trace validation of compute() runs against NuSpaceSim.tla (C17, C14).    *)
 (* Events, recorded by the instrumented results table:                      *)
 (*   Begin {mode, optical, radio, writeStages}                              *)
-(*   Mutate{kind, names, rows, dig, disk}   one staged-writer mutation; the *)
+(*   Mutate{kind, names, rows, dig, disk, cont}  one mutation of the table; *)
+(*          cont = it belongs to the same writer call as the previous one;  *)
 (*          file snapshot `disk' is read back from the output path BEFORE   *)
 (*          the mutation, i.e. at the boundary that ends the previous one   *)
 (*   End   {outcome, injected, disk, mem}   return / raise / process death  *)
@@ -14,8 +15,9 @@ EXTENDS TraceKit, NuSpaceSim, Float64
 
 VARIABLES dig,     \* column name -> digest token when it was added
           metav,   \* header keyword -> value token when it was added
-          rows     \* number of rows (survivors), -1 before the geometry stage
-tvars == <<dig, metav, rows>>
+          rows,    \* number of rows (survivors), -1 before the geometry stage
+          burst    \* names mutated so far by the writer call in progress (e.cont: this mutation belongs to the same call as the last)
+tvars == <<dig, metav, rows, burst>>
 
 NoConfigs == {}
 
@@ -46,19 +48,32 @@ SnapIsMem(s) ==
     /\ \A i \in 1..Len(s.meta) : s.meta[i] \in DOMAIN metav /\ MetaEq(s.metav[i], metav[s.meta[i]])
     /\ (mem.cols # <<>> => s.rows = rows)
 
-DiskClauses(s) ==
+(* inside a writer call (several mutations, one rewrite at its end) the file is the table as of the last completed boundary *)
+SnapIsCommitted(s) ==
+    LET cc == SelectSeq(mem.cols, LAMBDA c : c \notin burst) IN
+    /\ s.present
+    /\ s.cols = cc
+    /\ s.dig = SeqOfFcn(dig, cc)
+    /\ Range(s.meta) = mem.meta \ burst
+    /\ \A i \in 1..Len(s.meta) : s.meta[i] \in DOMAIN metav /\ MetaEq(s.metav[i], metav[s.meta[i]])
+
+DiskClausesAt(s, inCall) ==
     IF cfg.writeStages
-      THEN IF done = {} THEN << <<"C17 nothing but an empty table is on disk before the first boundary",
-                                     ~s.present \/ (s.cols = <<>> /\ s.meta = <<>>)>> >>
+      THEN IF done = {} \/ (inCall /\ mem.meta \ burst = {} /\ SelectSeq(mem.cols, LAMBDA c : c \notin burst) = <<>>)
+           THEN << <<"C17 nothing but an empty table is on disk before the first boundary",
+                     ~s.present \/ (s.cols = <<>> /\ s.meta = <<>>)>> >>
+           ELSE IF inCall
+           THEN << <<"C17 DiskIsCommitted: inside a writer call the file = table as of the last completed boundary", SnapIsCommitted(s)>> >>
            ELSE << <<"C17 DiskIsMemAtBoundary: file = table of all boundaries completed so far (names, order, data, header)",
                      SnapIsMem(s)>> >>
       ELSE << <<"C17 NoWriteWhenDisabled: no file without write_stages", ~s.present>> >>
+DiskClauses(s) == DiskClausesAt(s, FALSE)
 
 Check(e) ==
     CASE e.kind = "Begin" -> <<>>
       [] e.kind \in {"cols", "meta"} ->
             LET id == IdOf(e) IN
-            Fails(DiskClauses(e.disk) \o
+            Fails(DiskClausesAt(e.disk, e.cont) \o
                   (IF id = "?" THEN <<>>
                    ELSE << <<"C14 stage runs only when enabled for this configuration and after the stages it depends on",
                              CanDoT(id)>> >>) \o
@@ -78,8 +93,8 @@ Effect(e) ==
     CASE e.kind = "Begin" ->
             /\ cfg' = [mode |-> e.mode, optical |-> e.optical, radio |-> e.radio,
                        writeStages |-> e.writeStages, survivors |-> TRUE]
-            /\ done' = {} /\ mem' = EmptyTable /\ disk' = Absent /\ pending' = "" /\ phase' = "run"
-            /\ dig' = <<>> /\ metav' = <<>> /\ rows' = -1
+            /\ done' = {} /\ mem' = EmptyTable /\ disk' = Absent /\ pending' = {} /\ phase' = "run"
+            /\ dig' = <<>> /\ metav' = <<>> /\ rows' = -1 /\ burst' = {}
       [] e.kind = "cols" ->
             LET id == IdOf(e) IN
             /\ mem' = [mem EXCEPT !.cols = @ \o e.names]
@@ -90,6 +105,7 @@ Effect(e) ==
             /\ rows' = IF rows < 0 THEN e.rows ELSE rows
             /\ cfg' = IF id = "Geom" THEN [cfg EXCEPT !.survivors = e.rows > 0] ELSE IF id = "?" THEN cfg ELSE Going
             /\ disk' = [present |-> e.disk.present, cols |-> e.disk.cols, meta |-> Range(e.disk.meta)]
+            /\ burst' = (IF e.cont THEN burst ELSE {}) \cup Range(e.names)
             /\ UNCHANGED <<metav, pending, phase>>
       [] e.kind = "meta" ->
             LET id == IdOf(e) IN
@@ -100,11 +116,12 @@ Effect(e) ==
                           ELSE metav[n]]
             /\ disk' = [present |-> e.disk.present, cols |-> e.disk.cols, meta |-> Range(e.disk.meta)]
             /\ cfg' = IF id = "?" THEN cfg ELSE Going       \* a keyword no stage of the model writes says nothing about the stages
+            /\ burst' = (IF e.cont THEN burst ELSE {}) \cup Range(e.names)
             /\ UNCHANGED <<dig, rows, pending, phase>>
       [] e.kind = "End" ->
             /\ phase' = (IF e.outcome = "return" THEN "returned" ELSE IF e.outcome = "raise" THEN "failed" ELSE "dead")
             /\ disk' = [present |-> e.disk.present, cols |-> e.disk.cols, meta |-> Range(e.disk.meta)]
-            /\ UNCHANGED <<cfg, done, mem, pending, dig, metav, rows>>
+            /\ UNCHANGED <<cfg, done, mem, pending, dig, metav, rows, burst>>
       [] OTHER -> UNCHANGED <<vars, tvars>>
 
 (* invariants of NuSpaceSim.tla evaluated in the state after every event *)
@@ -117,8 +134,8 @@ Post == Fails(<< <<"inv FinalStructure (C14: the columns of every enabled stage,
 
 TInit == /\ TKInit
          /\ cfg = [mode |-> "Diffuse", optical |-> FALSE, radio |-> FALSE, writeStages |-> FALSE, survivors |-> TRUE]
-         /\ done = {} /\ mem = EmptyTable /\ disk = Absent /\ pending = "" /\ phase = "run"
-         /\ dig = <<>> /\ metav = <<>> /\ rows = -1
+         /\ done = {} /\ mem = EmptyTable /\ disk = Absent /\ pending = {} /\ phase = "run"
+         /\ dig = <<>> /\ metav = <<>> /\ rows = -1 /\ burst = {}
 TNext == TKAdvance /\ Effect(Ev) /\ TKRecord(Check(Ev) \o Post)
 TSpec == TInit /\ [][TNext]_<<tkvars, vars, tvars>>
 =============================================================================
